@@ -3,9 +3,10 @@ use crate::infra::PropDef;
 
 pub mod c04;
 pub mod c05;
+pub mod c06;
 
 pub fn all() -> &'static [PropDef] {
-    static ALL: &[PropDef] = &[c04::DEF, c05::DEF];
+    static ALL: &[PropDef] = &[c04::DEF, c05::DEF, c06::DEF];
     ALL
 }
 
